@@ -1,4 +1,5 @@
 CONSTANTS
+  MaxFaults = 3
   MaxCalls = 3
 INIT Init
 NEXT Next
